@@ -4,6 +4,7 @@ import PrefVerif.Driver.Voting
 import PrefVerif.Driver.C02
 import PrefVerif.Driver.C17
 import PrefVerif.Driver.IO
+import PrefVerif.Driver.Domains
 open Lean PrefVerif.Driver
 
 def handlers : List (String × Handler) := [
@@ -19,7 +20,11 @@ def handlers : List (String × Handler) := [
   ("io.read", IO.read),
   ("io.tables", IO.tables),
   ("io.prim", IO.prim),
-  ("c16.spec", IO.autocorrectSpec)
+  ("c16.spec", IO.autocorrectSpec),
+  ("dom.sp", Domains.sp),
+  ("dom.sc", Domains.sc),
+  ("dom.spt", Domains.spt),
+  ("dom.c1p", Domains.c1p)
 ]
 
 def dispatch (j : Json) : Json :=
